@@ -15,7 +15,7 @@ LEVEL = "model_checking"
 RULE = ("candidates are computed on every run from the code under test: every identifier occurring in the modules generated for the "
         "control shapes (locals, parameters, attributes, methods, imported names, module names), every keyword and soft keyword, "
         "every builtin, and case variants, plus 20 ordinary names as controls; each candidate is used as the property name in 4 "
-        "model shapes and as the parameter name in path/query/header/cookie x with/without a JSON body; oracle: behaviour equal to "
+        "model shapes and as the parameter name in path/query/header/cookie x with/without a JSON body; model shapes also: typed additionalProperties with undeclared keys present, formatted siblings (uuid / date / date-time); endpoint shapes also: the candidate as nullable uuid / date parameter next to uuid and JSON-transformed siblings; all four call variants; oracle: behaviour equal to "
         "the neutral-name twin modulo the wire name, or a diagnostic; non-trivial = both generated and compared")
 FLOOR = 0.5
 ASSUMPTIONS = ["comparison on canonical forms in which the wire name has been replaced by a placeholder before sorting keys"]
